@@ -5,9 +5,11 @@
 #                             sections: the design-level statement of seeded change C20-4)
 set -u
 W=$(mktemp -d /tmp/xahold.XXXX); trap 'rm -rf "$W"' EXIT
-cp "$(dirname "$0")"/../specs/XAHold.tla "$(dirname "$0")"/../specs/XAHold_MC.cfg "$(dirname "$0")"/../specs/XAHold_Neg_SplitClose.cfg "$W"/ && cd "$W" || exit 2
+cp "$(dirname "$0")"/../specs/XAHold.tla "$(dirname "$0")"/../specs/XAHold_MC.cfg "$(dirname "$0")"/../specs/XAHold_Neg_SplitClose.cfg "$(dirname "$0")"/../specs/XAHold_Neg_SplitRelease.cfg "$W"/ && cd "$W" || exit 2
 timeout 300 tlc -workers 1 -metadir "$W/m1" -config XAHold_MC.cfg XAHold.tla > pos.log 2>&1
 grep -q "No error has been found" pos.log || { echo "FAIL: XAHold_MC.cfg"; tail -20 pos.log; exit 1; }
-timeout 300 tlc -workers 1 -metadir "$W/m2" -config XAHold_Neg_SplitClose.cfg XAHold.tla > neg.log 2>&1
-grep -q "Invariant NoLeak is violated" neg.log || { echo "FAIL: the negative configuration did not violate NoLeak"; tail -20 neg.log; exit 1; }
-echo "ok: XAHold_MC passes ($(grep -o '[0-9]* distinct states found' pos.log | tail -1)); XAHold_Neg_SplitClose violates NoLeak as it must"
+for N in SplitClose SplitRelease; do
+timeout 300 tlc -workers 1 -metadir "$W/m2$N" -config XAHold_Neg_$N.cfg XAHold.tla > neg.log 2>&1
+grep -q "Invariant NoLeak is violated" neg.log || { echo "FAIL: XAHold_Neg_$N did not violate NoLeak"; tail -20 neg.log; exit 1; }
+done
+echo "ok: XAHold_MC passes ($(grep -o '[0-9]* distinct states found' pos.log | tail -1)); XAHold_Neg_SplitClose and XAHold_Neg_SplitRelease violate NoLeak as they must"
